@@ -68,6 +68,58 @@ func c10Setup(seed int64, idx int) (*tcCtx, influxql.Valuer, *tcNode) {
 	return c, valuer, c.condition(nt, no)
 }
 
+// c10Intersect: TimeRange.Intersect on ranges a caller builds or converts
+// itself. An open end is the zero instant whatever location the value is
+// carried in (tr.Max.In(zone) and tr.Max.Local() of an open end are open ends).
+func c10Intersect(c *Ctx) {
+	r := c.R
+	locs := []*time.Location{nil, time.UTC, time.Local, tcZone("America/New_York"), time.FixedZone("", 19800)}
+	rg := mon.NewRng(c.Seed, "c10.intersect", 0)
+	mk := func(open bool, ns int64, loc *time.Location) time.Time {
+		var t time.Time
+		if !open {
+			t = time.Unix(0, ns)
+		}
+		if loc != nil {
+			t = t.In(loc)
+		}
+		return t
+	}
+	for i := 0; i < 4000; i++ {
+		var open [4]bool
+		var ns [4]int64
+		var tm [4]time.Time
+		for k := range tm {
+			open[k] = rg.P(0.4)
+			ns[k] = 946684800000000000 + int64(rg.Intn(100))*3600000000000
+			tm[k] = mk(open[k], ns[k], locs[rg.Intn(len(locs))])
+		}
+		a, b := influxql.TimeRange{Min: tm[0], Max: tm[1]}, influxql.TimeRange{Min: tm[2], Max: tm[3]}
+		var got influxql.TimeRange
+		if p, pv, stk := mon.Try(func() { got = a.Intersect(b) }); p {
+			r.Violation("panic", map[string]interface{}{"idx": -1, "input": fmt.Sprintf("%v Intersect %v", a, b), "why": fmt.Sprint(pv), "stack": stk})
+			return
+		}
+		r.Eval(1)
+		wantMin, wantMax := int64(influxql.MinTime), int64(influxql.MaxTime)
+		for _, k := range []int{0, 2} {
+			if !open[k] && ns[k] > wantMin {
+				wantMin = ns[k]
+			}
+		}
+		for _, k := range []int{1, 3} {
+			if !open[k] && ns[k] < wantMax {
+				wantMax = ns[k]
+			}
+		}
+		if got.MinTimeNano() != wantMin || got.MaxTimeNano() != wantMax {
+			r.Violation("time-range-bounds", map[string]interface{}{"idx": -1, "input": fmt.Sprintf("[%v, %v] Intersect [%v, %v]", tm[0], tm[1], tm[2], tm[3]), "why": fmt.Sprintf("result [%d, %d] ns, want [%d, %d] (an open end is the zero instant in whatever location)", got.MinTimeNano(), got.MaxTimeNano(), wantMin, wantMax)})
+			return
+		}
+		r.Count("intersect.hand-built-ranges", 1)
+	}
+}
+
 func c10One(c *Ctx, idx int, local map[string]int64) {
 	r := c.R
 	_, valuer, cond := c10Setup(c.Seed, idx)
@@ -87,6 +139,19 @@ func c10One(c *Ctx, idx int, local map[string]int64) {
 			panic("harness: generated condition does not parse: " + perr.Error())
 		}
 		before = dumpOf(e)
+		if idx%3 == 0 {
+			// earlier in this process a caller converted the same date strings
+			// itself and changed the literals it got back
+			influxql.WalkFunc(e, func(n influxql.Node) {
+				if sl, ok := n.(*influxql.StringLiteral); ok && sl.IsTimeLiteral() {
+					for _, loc := range []*time.Location{time.UTC, tcZone("America/New_York"), tcZone("Asia/Kolkata")} {
+						if tl, err := (&influxql.StringLiteral{Val: sl.Val}).ToTimeLiteral(loc); err == nil && tl != nil {
+							tl.Val = tl.Val.Add(-13 * time.Hour).Truncate(24 * time.Hour)
+						}
+					}
+				}
+			})
+		}
 		resid, tr, err = influxql.ConditionExpr(e, valuer)
 		after = dumpOf(e)
 		// the caller's condition is split again (a cached statement planned twice)
@@ -218,6 +283,7 @@ func checkC10(c *Ctx) (string, bool, []string) {
 	}
 	// fixed witness of the known finding
 	n := c.N(20000, 1000000)
+	c10Intersect(c)
 	mon.Parallel(n, c.Workers, func(i int) {
 		local := map[string]int64{}
 		c10One(c, i, local)
